@@ -82,7 +82,7 @@ def texts(draw, trigs, allow_quote=True):
     def chunk():
         s = draw(st.text(alphabet=SAFE, max_size=8))
         if allow_quote and draw(st.integers(0, 9)) == 0:
-            s += draw(st.sampled_from(["'", '"']))
+            s += draw(st.sampled_from(["'", '"', "''"]))
         return s
     if not trigs:
         return [chunk() + 'q' + chunk(), None]
@@ -407,13 +407,27 @@ def open_traits(op):
     return traits
 
 
+SIG_DQ_QUOTES = 'C05:literal:adjacent-single-quotes-in-double-quoted'
+
+
+def dq_adjacent(lit):
+    """a double-quoted literal whose value contains two adjacent single quotes (regenerated with one of them: not the sanitiser)"""
+    return lit['q'] == '"' and "''" in lit['text']
+
+
 def repair(case, ctx):
-    """switch off the trigger of every *listed* OPEN root cause (exclusion by construction, counted)"""
-    op = case['open']
-    if not op or not ctx.known_sigs:
+    """switch off the trigger of every *listed* root cause that would mask others (exclusion by construction, counted)"""
+    if not ctx.known_sigs:
         return case
     case = copy.deepcopy(case)
+    if SIG_DQ_QUOTES in ctx.known_sigs:
+        for l in case['lits']:
+            if dq_adjacent(l):
+                ctx.exclude(SIG_DQ_QUOTES.replace('C05:', 'known:'))
+                l['q'] = "'"
     op = case['open']
+    if not op:
+        return case
     for _ in range(8):
         hit = [s for s in OPEN_SIGS if s in ctx.known_sigs and s in open_traits(op)]
         if not hit:
@@ -458,6 +472,15 @@ def lit_position(lit):
     return 'literal-continued' if lit.get('split') is not None else 'literal'
 
 
+def lit_sig(lit):
+    """signature of a failure located in this literal"""
+    if lit['trig']:
+        return f'C05:{lit_position(lit)}:{cls(lit["trig"])}'
+    if dq_adjacent(lit):
+        return SIG_DQ_QUOTES
+    return f'C05:{lit_position(lit)}:no-trigger'
+
+
 def cls(trig):
     """hazard class of a trigger text"""
     if not trig:
@@ -481,7 +504,7 @@ def hazard_sigs(case):
     sigs = []
     for l in case['lits']:
         if l['trig']:
-            sigs.append(f'C05:{lit_position(l)}:{cls(l["trig"])}')
+            sigs.append(lit_sig(l))
     for c in case['comments']:
         if c['trig']:
             sigs.append(f'C05:comment:{cls(c["trig"])}')
@@ -579,7 +602,7 @@ def _check_case(case, ctx, sample_differential):
             else:
                 if len(sigs) > 1:   # literals and continued literals in one case: which of them break the parse alone?
                     def only(s):
-                        return dict(t_only, lits=[l if f'C05:{lit_position(l)}:{cls(l["trig"])}' == s
+                        return dict(t_only, lits=[l if lit_sig(l) == s
                                                   else dict(l, text='zz', trig=None, split=None) for l in case['lits']])
                     sigs = [s for s in sigs if try_parse(build_source(only(s))[0])[0] is None] or sigs
                 for s in sigs:
@@ -603,7 +626,7 @@ def _check_case(case, ctx, sample_differential):
     for l in case['lits']:
         # loki keeps the value in the form it has between single quotes (' doubled); either representation is accepted
         if l['how'] == 'assign' and l['text'] not in lit_values and l['text'].replace("'", "''") not in lit_values:
-            ctx.fail(f'C05:{lit_position(l)}:{cls(l["trig"])}', case,
+            ctx.fail(lit_sig(l), case,
                      f'literal {l["text"]!r} not found among the StringLiteral values of the IR {lit_values!r}'[:600])
     ctexts = [c.text for c in FindNodes(ir.Comment).visit(routine.ir)]
     for blk in FindNodes(ir.CommentBlock).visit(routine.ir):
@@ -626,7 +649,7 @@ def _check_case(case, ctx, sample_differential):
     r_lits = [v for s in r_stmts for v in lits_of(s)]
     for l in case['lits']:
         if r_lits.count(l['text']) != o_lits.count(l['text']):
-            ctx.fail(f'C05:{lit_position(l)}:{cls(l["trig"])}', case,
+            ctx.fail(lit_sig(l), case,
                      f'literal {l["text"]!r} occurs {o_lits.count(l["text"])}x in the original, {r_lits.count(l["text"])}x in the '
                      f'regenerated code; regenerated literals {r_lits!r}'[:600])
     for (kind, idx), text in zip(ctags, o_comments):
@@ -680,7 +703,7 @@ def _check_case(case, ctx, sample_differential):
 
 
 def run_shard(ctx):
-    ctx.given(cases(big=ctx.thorough), check_case, ctx.scale(2400, 48000))
+    ctx.given(cases(big=ctx.thorough), check_case, ctx.scale(2400, 32000))
 
 
 def replay(case, ctx):
